@@ -336,7 +336,15 @@ func getTagType(v reflect.Value) (byte, reflect.Value) {
 	case reflect.Array, reflect.Slice:
 		var elemType byte
 		if v.Len() > 0 {
-			elemType, _ = getTagType(v.Index(0))
+			var elem reflect.Value
+			elemType, elem = getTagType(v.Index(0))
+			// Elements that encode themselves are written one by one,
+			// the typed arrays are made of plain integers only.
+			if elem.Type().NumMethod() > 0 && elem.CanInterface() {
+				if _, ok := elem.Interface().(Marshaler); ok {
+					return TagList, v
+				}
+			}
 		} else {
 			elemType = getTagTypeByType(v.Type().Elem())
 		}
